@@ -73,7 +73,7 @@ def is_decoded_fill(spec, var):
     """True when xarray's CF decoding has replaced the variable's fill value with NaN."""
     if var.get("fill") is None:
         return False
-    return spec.get("mode", "raw") in ("decoded", "netcdf")
+    return spec.get("mode", "raw") in ("decoded", "netcdf", "dask")
 
 
 def kind_map(conv):
